@@ -222,6 +222,9 @@ func (maps *trackedMaps) processUnfiltered(ctx context.Context, ef *Filter, filt
 					return fmt.Errorf("%s: unable to filter wrappers string value: %w", op, err)
 				}
 				vv := reflect.ValueOf(wrapperspb.StringValue{Value: s})
+				if fPtr {
+					vv = reflect.ValueOf(&wrapperspb.StringValue{Value: s})
+				}
 				v.SetMapIndex(key, vv)
 
 			case ftype == reflect.TypeOf(wrapperspb.BytesValue{}):
@@ -231,6 +234,9 @@ func (maps *trackedMaps) processUnfiltered(ctx context.Context, ef *Filter, filt
 					return fmt.Errorf("%s: unable to filter wrappers bytes value: %w", op, err)
 				}
 				vv := reflect.ValueOf(wrapperspb.BytesValue{Value: s})
+				if fPtr {
+					vv = reflect.ValueOf(&wrapperspb.BytesValue{Value: s})
+				}
 				v.SetMapIndex(key, vv)
 
 			case fkind == reflect.Slice:
